@@ -1889,23 +1889,29 @@ func (r *Repository) ResolveRevision(in plumbing.Revision) (*plumbing.Hash, erro
 
 			var tryHashes []plumbing.Hash
 
+			ref, refErr := expandRef(r.Storer, plumbing.ReferenceName(revisionRef))
+
+			// in ambiguous cases, `git rev-parse` will emit a warning, but
+			// will return a full oid in preference to a ref of the same
+			// name, and a ref in preference to an abbreviated oid (it only
+			// takes a name for an abbreviation when no ref is called that);
+			// we don't have the ability to emit a warning here, so just
+			// return in the priority that git would.
+			if refErr == nil && !plumbing.IsHash(string(revisionRef)) {
+				tryHashes = append(tryHashes, ref.Hash())
+			}
+			nFirst := len(tryHashes)
 			tryHashes = append(tryHashes, r.resolveHashPrefix(string(revisionRef))...)
 			nPrefix := len(tryHashes)
-
-			ref, err := expandRef(r.Storer, plumbing.ReferenceName(revisionRef))
-			if err == nil {
+			if refErr == nil && nFirst == 0 {
 				tryHashes = append(tryHashes, ref.Hash())
 			}
 
-			// in ambiguous cases, `git rev-parse` will emit a warning, but
-			// will always return the oid in preference to a ref; we don't have
-			// the ability to emit a warning here, so (for speed purposes)
-			// don't bother to detect the ambiguity either, just return in the
-			// priority that git would.
-			gotOne := false
+			gotOne, byRefFirst := false, false
 			for i, hash := range tryHashes {
-				// An ID wins over a reference of the same name.
-				if gotOne && i >= nPrefix {
+				// What comes first in git's order wins over what follows;
+				// only abbreviated IDs are checked against each other.
+				if gotOne && (byRefFirst || i >= nPrefix) {
 					break
 				}
 
@@ -1929,6 +1935,7 @@ func (r *Repository) ResolveRevision(in plumbing.Revision) (*plumbing.Hash, erro
 				if !gotOne {
 					commit = found
 					gotOne = true
+					byRefFirst = i < nFirst
 				} else if found.Hash != commit.Hash {
 					// Like git, refuse an abbreviated ID that names more
 					// than one commit instead of picking one of them.
